@@ -507,6 +507,8 @@ def oracle(run, deep):
                           "required": repr(base[(t, di)])[:500], "theorem": "C18_interleave / C18_any_order"})
                 return
     bare_prepared_contexts(run)
+    deep_statements(run)
+    document_turnover(run, 3 if run.quick and not deep else 15)
     free_running(run, stmts, docs, shared, logs, base, seconds=(4 if run.quick and not deep else 25))
     what = None
     if c09.ctx_snapshot([shared]) != snap_ctx:
@@ -600,6 +602,98 @@ def bare_prepared_contexts(run):
             return
 
 
+def deep_statements(run):
+    """Several threads inside DEEPLY nested evaluations at the same moment (each alone stays well inside what one thread
+    can nest): each returns what it returns alone."""
+    shared, logs = shared_context()
+    eng = ec.engine()
+    deep = ["$.n" + " + 1" * 70, "1" + " + $.n" * 60, "max(1, " * 40 + "$.n" + ")" * 40, "$.l" + ".select($ + 1)" * 30 + ".toList()",
+            "[" * 25 + "$.n" + "]" * 25, "not " * 50 + "true", "sq(" * 30 + "1" + ")" * 30]
+    docs = [c09.host_data(), dict(c09.host_data(), n=5)]
+    stmts, base = {}, {}
+    for t in deep:
+        try:
+            stmts[t] = eng(t)
+        except Exception:
+            continue
+        for di, d in enumerate(docs):
+            base[(t, di)] = canon(make_job(stmts[t], d, shared, logs, False)())
+    texts = [t for t in stmts if all(base[(t, di)][0] == "ok" for di in range(len(docs)))]
+    for _ in range(run.n(8, 60)):
+        k = run.rng.choice([3, 4, 4])
+        t0 = run.rng.choice(texts)
+        picks = [(t0 if run.rng.random() < 0.7 else run.rng.choice(texts), run.rng.randrange(len(docs))) for _ in range(k)]
+        jobs = [make_job(stmts[t], docs[di], shared, logs, False) for t, di in picks]
+        counts = [count_steps(j)[0] for j in jobs]
+        # all threads go down together: round-robin while any has steps left
+        sched = [i for step in range(max(counts)) for i in range(k) if step < counts[i]]
+        s = Scheduler(jobs)
+        used = s.run(sched)
+        run.case(("deep", tuple((t[:20], di) for t, di in picks), len(used)), nontrivial=True)
+        run.count("deep_round")
+        if s.problems:
+            run.fail("violation", "an evaluation did not terminate under a schedule: %s" % s.problems[0], {"deep": True, "statements": picks})
+            return
+        for (t, di), res in zip(picks, s.results):
+            if canon(res) != base[(t, di)]:
+                run.fail("violation", "deeply nested evaluations in several threads at once: a thread's result differs from the result "
+                                      "of the same evaluation run alone",
+                         {"deep": True, "statement": t, "document": di, "all": picks, "schedule": used, "observed": repr(canon(res))[:400],
+                          "required": repr(base[(t, di)])[:400]})
+                return
+
+
+def document_turnover(run, seconds):
+    """Free-running threads that build a NEW input document for every evaluation (and drop it afterwards) while another
+    thread keeps converting a large document: every evaluation sees its own document."""
+    import time
+    eng = ec.engine()
+    shared, logs = shared_context()
+    stmt = eng("[$.id, $.tags, $.items.len(), $.meta.k]")
+    big_stmt = eng("$.rows.len()")
+    big = {"rows": [{"i": i, "v": [i, i + 1, {"k": [i] * 3}]} for i in range(3000)]}
+    old = sys.getswitchinterval()
+    sys.setswitchinterval(1e-6)
+    stop = time.time() + seconds
+    bad = []
+
+    def converter():
+        while time.time() < stop and not bad:
+            try:
+                r = big_stmt.evaluate(data=big, context=shared.create_child_context())
+            except Exception as e:
+                r = ("exc", type(e).__name__)
+            if r != 3000:
+                bad.append(("big document", repr(r), "3000"))
+
+    def worker(k):
+        i = k * 100000
+        while time.time() < stop and not bad:
+            i += 1
+            doc = {"id": i, "tags": [i, i + 1], "items": list(range(i % 7)), "meta": {"k": "v%d" % i}}
+            want = [i, [i, i + 1], i % 7, "v%d" % i]
+            try:
+                r = stmt.evaluate(data=doc, context=shared.create_child_context())
+            except Exception as e:
+                r = ("exc", type(e).__name__)
+            if r != want:
+                bad.append((repr(doc), repr(r)[:200], repr(want)))
+            del doc
+    try:
+        ths = [threading.Thread(target=converter)] + [threading.Thread(target=worker, args=(k,)) for k in range(3)]
+        for t in ths:
+            t.start()
+        for t in ths:
+            t.join()
+    finally:
+        sys.setswitchinterval(old)
+    run.count("document_turnover_soak")
+    run.case(("turnover", seconds), nontrivial=True)
+    if bad:
+        run.fail("violation", "free-running threads with a fresh input document per evaluation: an evaluation did not see its own document",
+                 {"turnover": True, "document": bad[0][0], "observed": bad[0][1], "required": bad[0][2]})
+
+
 def free_running(run, stmts, docs, shared, logs, base, seconds=None):
     import time
     seconds = seconds or (5 if run.quick else 25)
@@ -650,6 +744,10 @@ def replay(run, data):
     shared, logs = shared_context()
     eng = ec.engine()
     docs = [c09.host_data(), dict(c09.host_data(), n=5, t="banana", l=[5, 5, 1])]
+    if d.get("deep") or d.get("turnover"):
+        probe = _Probe(run)
+        (deep_statements(probe) if d.get("deep") else document_turnover(probe, 5))
+        return not probe.failed
     if d.get("bare_context") or d.get("route") == "yaql.eval":
         probe = _Probe(run)
         (bare_prepared_contexts if d.get("bare_context") else __import__("evalrace").run_races)(*((probe,) if d.get("bare_context") else (probe, "C18")))
